@@ -174,6 +174,76 @@ def analyse(ctx, repo, prop, nb_ctx):
     # guard: only truthiness of that same entry (pattern filter); recorded, not judged
     gtxt = "; ".join(vstr(g.cond) for g in guards)
     ctx.notes.append(f"[{prop}] pattern filter reads the value: {gtxt}")
+    # a scan restricted to a band of the position matrix (|j - i| <= w) is the full scan iff the band contains the support of P:
+    # in the flat numbering i = n_o*shell + direction (decided by C02.position.*) neighbours are at most one shell apart, |j - i| <= n_o,
+    # and the same-ray neighbour sits at exactly +-n_o
+    from ..interp import atoms_of as _atoms_of
+    band, rest_g = [], []
+    for g_ in guards:
+        c_ = g_.cond
+        if isinstance(c_, CondV) and c_.kind == "cmp" and c_.args[0] in (">=", ">", "<", "<=") and \
+                all(a_[0] in ("idx", "sym") for a_ in _atoms_of(c_)) and {li.idx, lj.idx} & set(_atoms_of(c_)):
+            band.append(g_)
+        else:
+            rest_g.append(g_)
+    if band:
+        ctx.instance("LAYOUT")
+        lows, ups, odd = [], [], []
+        for g_ in band:
+            op_, a_, b_ = g_.cond.args[0], g_.cond.args[1], g_.cond.args[2]
+            d_ = a_ - b_                                   # d_ op 0
+            w_ = d_ - (j - i)
+            if not ({li.idx, lj.idx, lk.idx} & set(w_.all_atoms_deep())):
+                # (j - i) + w_ op 0
+                if op_ in (">=", ">"):
+                    lows.append(w_ - (1 if op_ == ">" else 0))        # j - i >= -w
+                else:
+                    ups.append(-w_ - (1 if op_ == "<" else 0))        # j - i <= w
+                continue
+            w_ = d_ + (j - i)
+            if not ({li.idx, lj.idx, lk.idx} & set(w_.all_atoms_deep())):
+                # -(j - i) + w_ op 0
+                if op_ in (">=", ">"):
+                    ups.append(w_ - (1 if op_ == ">" else 0))
+                else:
+                    lows.append(-w_ - (1 if op_ == "<" else 0))
+                continue
+            odd.append(vstr(g_.cond))
+        narrow = None
+        undecided = list(odd)
+        for side, ws in (("below", lows), ("above", ups)):
+            for w_ in ws:
+                slack = w_ - n_o
+                if all(c__ >= 0 for c__ in slack.terms.values()) and not slack.has_top() and \
+                        all(a__[0] == "sym" for a__ in slack.all_atoms_deep()):
+                    continue
+                syms = sorted({a__ for a__ in slack.all_atoms_deep() if a__[0] == "sym"})
+                found = None
+                if all(a__[0] == "sym" for a__ in slack.all_atoms_deep()) and len(syms) <= 3:
+                    import itertools
+                    for vals_ in itertools.product((1, 2, 3, 4, 5, 6, 50, 1000), repeat=len(syms)):
+                        env_ = dict(zip(syms, vals_))
+                        if env_.get(("sym", "n_t"), 2) < 2:
+                            continue
+                        v_ = slack.subs({k_: Poly.const(x_) for k_, x_ in env_.items()})
+                        if v_.is_const() and v_.as_const() < 0:
+                            found = ", ".join(f"{k_[1]}={x_}" for k_, x_ in env_.items())
+                            break
+                if found:
+                    narrow = narrow or f"band reaches {w_.pretty()} {side} the diagonal; with {found} the same-ray neighbour at distance n_o lies outside"
+                else:
+                    undecided.append(f"band width {w_.pretty()} ({side}) against n_o")
+        if narrow:
+            ctx.violate("LAYOUT", f"{tag}.rot.band", "the scan of the position matrix is restricted to a band that is narrower than one shell "
+                        "(n_o cells): position neighbours outside the band (every radial neighbour, far in-shell neighbours) are silently "
+                        "dropped from the same-rotation family", where, "for j, el in enumerate(line):", witness=narrow)
+        elif undecided:
+            ctx.inconclusive("LAYOUT", f"{tag}.rot.band", "band restriction of the scan not decided", where, witness="; ".join(undecided)[:300])
+        else:
+            ctx.ok("LAYOUT", f"{tag}.rot.band", "the scan is restricted to a band of at least one shell (n_o cells) on either side of the "
+                   "diagonal, which contains every position neighbour (spherical position mode)", where,
+                   derived="; ".join(vstr(g_.cond) for g_ in band))
+        guards = rest_g
     if guards:
         g0 = guards[0].cond
         from ..interp import atoms_of
